@@ -100,6 +100,10 @@ def ideal_quant(m, bd, full, plane):
 def run(tier):
     ck = Check('C02', tier, 'proof', 'abstract interpretation of MIR: per-plane store summaries, affine forms with a-priori rounding bounds, monotone-wrapper argument')
     builds = ('K1',) if tier == 'quick' else ('K1', 'K2')
+    analyse(ck, tier, builds)
+    return ck.finish()
+
+def analyse(ck, tier, builds, prefix=''):
     ctxs = {b: Ctx(b) for b in builds}
     box = [Fr(-1, 2), Fr(3, 2)]
     pts = list(itertools.product(box, repeat=3)) + list(itertools.product([Fr(0), Fr(1)], repeat=3)) + [(Fr(1, 2),) * 3]
@@ -193,7 +197,7 @@ def run(tier):
     ck.note('worst_bound_relative_to_2^n', float(worst_rel))
     ck.floor('encodes_interpreted', (56 if tier == 'quick' else 140) * len(builds))
     ck.assumptions += ['A-geom: dimensions below 2^28', 'pixel components finite in [-0.5, 1.5] (the property\'s quantifier)']
-    return ck.finish()
+    return None
 
 def check_special(cond, v, an, a, full, p, bd):
     """cond must be |C + 0.5| < eps with C the chroma value that also feeds the main path;
